@@ -25,8 +25,9 @@ What is transcribed (function by function):
                        source (one fetcher, every request succeeds).
 * `Spec.step`        — the evidence-based ACCEPTOR the harness runs on observed traces.
 
-Blocks are abstract: number, hash, parent hash and `ok` = "SanityCheckNewHeight returns nil on this
-(block, state update, classes) triple". Block numbers are `Nat`; the two places where the code does
+Blocks are abstract: number, hash, parent hash, `ok` = "SanityCheckNewHeight returns nil on this
+(block, state update, classes) triple", the identity of the state diff and the CLAIMED state root; the
+node's state is the sequence of the stored diffs, its root `stateRoot` (`Store` compares the two). Block numbers are `Nat`; the two places where the code does
 uint64 subtraction use `sub64` (exact for numbers `< 2^64`).
 -/
 namespace Juno.C06
@@ -43,6 +44,12 @@ structure Blk where
   parent : Nat
   /-- `SanityCheckNewHeight` accepts this triple -/
   ok : Bool
+  /-- abstract identity of the block's state diff (incl. declared classes); `0` = the EMPTY diff -/
+  diff : Nat
+  /-- the state root the block CLAIMS (`Header.GlobalStateRoot` = `StateUpdate.NewRoot`, with the
+  matching `OldRoot`). `ok` does not look at it: `SanityCheckNewHeight` only checks that header, hash
+  and state update agree with each other, and blocks are unsigned. -/
+  root : Nat
 deriving DecidableEq, Repr, Inhabited
 
 /-- what `BlockHeaderLatest` answers -/
@@ -161,16 +168,33 @@ def isReverting (cfg : Cfg) (c : Chain) (next : Nat) (latest : Option Hdr) (conf
         else if cfg.zeroGuard && rh.num == 0 then some 0
         else some (sub64 rh.num 1)
 
+/-- The state commitment, abstractly: the root after applying the diff `d` to a state whose root is
+`r`. The empty diff (`0`) leaves the state, hence the root, alone; otherwise some fixed function. -/
+def rootStep (r d : Nat) : Nat :=
+  if d == 0 then r else (r * 1000003 + d * 7919 + 1) % 2147483647
+
+/-- Root of the state the node ACTUALLY holds: a function of the diffs of the stored blocks (what
+`state.Update` has applied), never of what their headers claim. -/
+def stateRoot : Chain → Nat
+  | [] => 0
+  | b :: tl => rootStep (stateRoot tl) b.diff
+
 inductive StoreRes where
   | stored | badNumber | parentMismatch
+  /-- `state.Update` applied the diff and found another root than the block claims ("state's current
+  root … does not match the expected root"): `Store` fails, nothing is written -/
+  | rootMismatch
 deriving DecidableEq, Repr
 
-/-- `verifyBlockSuccession`: expected number / parent from the head (0 / felt.Zero on an empty chain). -/
+/-- `Store`: `verifyBlockSuccession` (expected number / parent from the head, 0 / felt.Zero on an
+empty chain), then the state update, which verifies the claimed root against the root of the
+resulting state — the only link between the claim and the real state. -/
 def succession (c : Chain) (b : Blk) : StoreRes :=
   let expNum := nextHeight c
   let expParent := match c with | [] => 0 | hd :: _ => hd.hash
   if expNum != b.num then .badNumber
   else if b.parent != expParent then .parentMismatch
+  else if b.root != rootStep (stateRoot c) b.diff then .rootMismatch
   else .stored
 
 /-- `if s.currReorg != nil { s.reorgFeed.Send(s.currReorg) }` -/
@@ -273,6 +297,7 @@ def Impl.step (cfg : Cfg) (s : Impl) : Ev → Impl × List Obs
       else match succession s.node.chain b with
         | .stored => let (n, o) := onStored s.node b; ({ s with node := n, ev := s.ev.clearRecent }, o)
         | .badNumber => (s, [])              -- other store error: reset
+        | .rootMismatch => (s, [])           -- other store error: reset
         | .parentMismatch => ({ s with task := some (mismatchLpv cfg b) }, [])
   | .reorgDetected next latest confirm =>
     match s.task with
@@ -348,6 +373,7 @@ def round (cfg : Cfg) (src : Chain) (n : Node) : Node × List Obs :=
     else match succession n.chain b with
       | .stored => onStored n b
       | .badNumber => (n, [])
+      | .rootMismatch => (n, [])
       | .parentMismatch => revertTask cfg src (mismatchLpv cfg b) n.chain n.reorg
   | none =>
     match isReverting cfg n.chain h (srcLatest src) (srcConfirm src) with
@@ -434,7 +460,7 @@ def rangeOf : List Blk → Option Range
     some ⟨last.num, last.hash, first.num, first.hash⟩
 
 inductive Reject where
-  | storedNotServed | storedNotVerified | storedNotSuccessor
+  | storedNotServed | storedNotVerified | storedNotSuccessor | storedRootWrong
   | revertNotHead | revertNotJustified | revertFailed
   | notifUnexpected
   | notifOwedAtShutdown
@@ -444,6 +470,7 @@ def Reject.name : Reject → String
   | .storedNotServed => "stored-block-never-served"
   | .storedNotVerified => "stored-block-not-verified"
   | .storedNotSuccessor => "stored-block-does-not-extend-head"
+  | .storedRootWrong => "stored-block-claims-a-state-root-that-is-not-the-root-of-the-resulting-state"
   | .revertNotHead => "revert-not-of-head"
   | .revertNotJustified => "revert-without-evidence"
   | .revertFailed => "revert-head-failed"
@@ -465,7 +492,10 @@ def Spec.step (m : Mode) (s : Spec) : SEv → Except Reject Spec
       -- any verified served block with this number and hash whose parent fits
       match s.ev.blocks.find? (fun rb => rb.2.num == num && rb.2.hash == hash && rb.2.ok
                                   && succession s.chain rb.2 == .stored) with
-      | none => .error .storedNotSuccessor
+      | none =>
+        if s.ev.blocks.any (fun rb => rb.2.num == num && rb.2.hash == hash && rb.2.ok
+                                  && succession s.chain rb.2 == .rootMismatch) then .error .storedRootWrong
+        else .error .storedNotSuccessor
       | some rb =>
         .ok { s with chain := rb.2 :: s.chain, pending := [], ev := s.ev.clearRecent,
                      owed := s.owed ++ reorgObs (rangeOf s.pending) ++ [Obs.newHead num hash] }
